@@ -123,6 +123,9 @@ type fpBool struct {
 }
 
 type Engine struct {
+	// the property being checked ("" in dump mode): a clause tagged for other properties only is neither
+	// checked nor assumed in this run
+	curProp   string
 	repo      string
 	verifDir  string
 	fset      *token.FileSet
